@@ -26,8 +26,19 @@ Definition sent_oracle_c08 (d : dict) (o : options) (so : sentobs) : bool :=
   | _ => true
   end.
 
+(** a user lexicon naming a connection id outside the connector must be rejected (Err), and an
+    accepted dictionary never panics later on such an id *)
+Definition user_in_range (c : tokcase) : bool :=
+  let '(nr, nl) := conn_dims (tc_conn c) in
+  match tc_user c with
+  | Some rows => forallb (fun r => (lr_lid r <? nl)%N && (lr_rid r <? nr)%N) rows
+  | None => true
+  end.
+
 Definition c08_oracle (c : tokcase) : bool :=
-  with_dict c true (fun d o => forallb (fun so => sent_oracle_c08 d o so && sent_ok_c03 d o so) (tc_sents c)).
+  (user_in_range c || negb (tc_built c =? 0)%N)
+  && negb (tc_built c =? 2)%N
+  && with_dict c true (fun d o => forallb (fun so => sent_oracle_c08 d o so && sent_ok_c03 d o so) (tc_sents c)).
 
 (** a rejected user lexicon: ids outside the connector or no rows *)
 Definition c08_nontrivial (c : tokcase) : bool :=
